@@ -35,7 +35,13 @@ fn p4(ft: Ft) -> f64 {
 }
 
 fn around(ft: Ft, x: f64) -> Vec<f64> {
-    vec![ft.next_down(x), ft.rnd(x), ft.next_up(x), ft.rnd(x * (1.0 - 1e-3)), ft.rnd(x * (1.0 + 1e-3))]
+    // both sides of the switch at log-spaced distances: 1 ulp, 1e-5, 3e-4, 1e-3, 1e-2 (relative)
+    let mut v = vec![ft.next_down(x), ft.rnd(x), ft.next_up(x)];
+    for d in [1e-5, 3e-4, 1e-3, 1e-2] {
+        v.push(ft.rnd(x * (1.0 - d)));
+        v.push(ft.rnd(x * (1.0 + d)));
+    }
+    v
 }
 
 fn c(fam: Fam, ft: Ft, p: &[f64]) -> Cell {
@@ -302,7 +308,9 @@ pub fn grid(fam: Fam, ft: Ft) -> Vec<Cell> {
         Fam::Zipf => {
             let nmax = if ft == Ft::F32 { 1048576.0 } else { 1e15 };
             for &n in &[1.0, 2.0, 3.0, 10.0, 1000.0, nmax] {
-                for &s in &[0.0, ft.next_down(1.0), 1.0, ft.next_up(1.0), 0.5, 2.0, 10.0, 1.5] {
+                let mut ss = around(ft, 1.0);
+                ss.extend_from_slice(&[0.0, 0.5, 2.0, 10.0, 1.5]);
+                for s in ss {
                     v.push(c(fam, ft, &[n, s]));
                 }
             }
@@ -339,8 +347,9 @@ pub fn random_cell(fam: Fam, ft: Ft, r: &mut BaseRng) -> Cell {
                     x = ft.next_down(x);
                 }
             }
-            2 => x = s * (1.0 + 1e-3),
-            _ => x = s * (1.0 - 1e-3),
+            // log-uniform relative distance in [1e-6, 1e-1] on either side
+            2 => x = s * (1.0 + (uni(r, -6.0, -1.0) * std::f64::consts::LN_10).exp()),
+            _ => x = s * (1.0 - (uni(r, -6.0, -1.0) * std::f64::consts::LN_10).exp()),
         }
         x
     };
